@@ -10,23 +10,54 @@ import os, re, sys, json, random, subprocess, itertools, hashlib
 from common import *
 
 SAN = ('-O1', '-g', '-fsanitize=address,undefined', '-fno-sanitize-recover=all')
+# Store orders ("layouts") the Lean model knows: the pinned commit's, and the proposed repairs
+# (repo_patches/C15-fix-ctor-order.diff, C15-fix-sethandler-order.diff).  The check reads the layout off the real code.
+CTOR_LAYOUTS = {
+    False: ['sh.ctor.enter', 'sh.ctor.after_set_interrupter', 'sh.ctor.after_msg_ptr', 'sh.ctor.after_msg_size',
+            'sh.ctor.after_signal_int', 'sh.ctor.after_signal_term', 'sh.ctor.after_stop0'],
+    True: ['sh.ctor.enter', 'sh.ctor.after_set_interrupter', 'sh.ctor.after_msg_ptr', 'sh.ctor.after_msg_size',
+           'sh.ctor.after_stop0', 'sh.ctor.after_signal_int', 'sh.ctor.after_signal_term'],
+}
+SET_LAYOUTS = {
+    False: ['sh.set.after_handler', 'sh.set.after_data'],
+    True: ['sh.set.after_handler_clear', 'sh.set.after_data', 'sh.set.after_handler'],
+}
+LAYOUT_NAME = {(False, False): 'pinned', (True, False): 'ctorfix', (False, True): 'regfix', (True, True): 'fixed'}
 NSTEPS = {'C': 7, 'R': 2, 'W': 1, 'D': 5}
-CTOR_NAMES = ['sh.ctor.enter', 'sh.ctor.after_set_interrupter', 'sh.ctor.after_msg_ptr', 'sh.ctor.after_msg_size',
-              'sh.ctor.after_signal_int', 'sh.ctor.after_signal_term', 'sh.ctor.after_stop0']
-SET_NAMES = ['sh.set.after_handler', 'sh.set.after_data']
+CTOR_NAMES = CTOR_LAYOUTS[False]
+SET_NAMES = SET_LAYOUTS[False]
+
+
+def set_layout(ctor_fixed, reg_fixed):
+    global CTOR_NAMES, SET_NAMES
+    CTOR_NAMES = CTOR_LAYOUTS[ctor_fixed]
+    SET_NAMES = SET_LAYOUTS[reg_fixed]
+    NSTEPS['R'] = len(SET_NAMES)
+
+
+def detect_layout(exe):
+    """run `C R:1:1 D` without signals on the real code and read the order of the stores off the hook names"""
+    p = subprocess.run([exe, '3'], input='bsd C R:1:1 D |\n', capture_output=True, text=True)
+    names = [t.split('[')[0] for t in p.stdout.strip().split(' ')]
+    ctor = [n for n in names if n.startswith('sh.ctor.')]
+    sets = [n for n in names if n.startswith('sh.set.')]
+    cf = [k for k, v in CTOR_LAYOUTS.items() if v == ctor]
+    rf = [k for k, v in SET_LAYOUTS.items() if v == sets]
+    return (cf[0] if cf else None), (rf[0] if rf else None), names
 DTOR_NAMES = ['sh.dtor.after_set_interrupter', 'sh.dtor.after_stop1', 'sh.dtor.after_handler0',
               'sh.dtor.after_msg_size0', 'free']
 MSGLEN = 18
 
 # the schedules of the proved counterexample theorems in lean/MpVerif/C15/Props.lean (replayed on the real code)
-COUNTEREXAMPLES = [
-    ('C15_counterexample_lost_in_ctor_window', 'bsd C W | 5:I', 'ctor-window:lost'),
-    ('C15_counterexample_mispaired_first_registration', 'bsd C R:1:1 | 8:I', 'sethandler-window:mispaired:new-callback-old-data'),
-    ('C15_counterexample_mispaired_reregistration', 'bsd C R:1:1 R:2:2 | 10:I', 'sethandler-window:mispaired:new-callback-old-data'),
-    ('C15_counterexample_third_no_exit_ctor_window', 'bsd C W | 5:I 7:I 7:I', 'ctor-window:third-no-exit'),
-    ('C15_counterexample_early_exit_ctor_window', 'bsd C W | 5:I 5:I', 'ctor-window:early-exit'),
-    ('C15_counterexample_third_no_exit_across_teardown', 'bsd C W D W | 8:I 8:I 13:I', 'across-teardown:third-no-exit'),
+ALL_COUNTEREXAMPLES = [   # (theorem, case, expected oracle class, layout aspect it is about)
+    ('C15_counterexample_lost_in_ctor_window', 'bsd C W | 5:I', 'ctor-window:lost', 'ctor'),
+    ('C15_counterexample_mispaired_first_registration', 'bsd C R:1:1 | 8:I', 'sethandler-window:mispaired:new-callback-old-data', 'reg'),
+    ('C15_counterexample_mispaired_reregistration', 'bsd C R:1:1 R:2:2 | 10:I', 'sethandler-window:mispaired:new-callback-old-data', 'reg'),
+    ('C15_counterexample_third_no_exit_ctor_window', 'bsd C W | 5:I 7:I 7:I', 'ctor-window:third-no-exit', 'ctor'),
+    ('C15_counterexample_early_exit_ctor_window', 'bsd C W | 5:I 5:I', 'ctor-window:early-exit', 'ctor'),
+    ('C15_counterexample_third_no_exit_across_teardown', 'bsd C W D W | 8:I 8:I 13:I', 'across-teardown:third-no-exit', 'any'),
 ]
+COUNTEREXAMPLES = [c[:3] for c in ALL_COUNTEREXAMPLES]
 
 FAMILY = [
     'C W D W',
@@ -64,6 +95,10 @@ def int_only(k):
 
 def mixed_some(k):
     return [('I',) * k, ('T',) * k, tuple('IT'[i % 2] for i in range(k)), tuple('TI'[i % 2] for i in range(k))]
+
+
+def alternating(k):
+    return [('I',) * k, tuple('TI'[i % 2] for i in range(k))]
 
 
 def random_program(rng):
@@ -124,7 +159,7 @@ def gen_cases(ck):
         n = nsteps(prog)
         for mode in ('bsd', 'sysv'):
             for k in (0, 1, 2):
-                for sch in schedules(n, k, all_kinds if k <= 1 else mixed_some):
+                for sch in schedules(n, k, all_kinds if k <= 1 else alternating):
                     cases.append(('enum-extra', '%s %s | %s' % (mode, prog, sch)))
     rng = random.Random(ck.seed * 7919 + (1 if thorough else 0))
     for _ in range(12000 if thorough else 1500):
@@ -201,6 +236,7 @@ def oracle(case, impl):
     seen_dtor = False
     handled_since_ctor = 0
     installed_obj = {'I': False, 'T': False}
+    stop0_done = False
     for t in toks[1:]:
         hd = t['head']
         if hd == 'end':
@@ -216,13 +252,15 @@ def oracle(case, impl):
             a = t['args'] or {}
             # where are we?
             cur = expected[pos] if pos < len(expected) else None
-            in_reg = cur is not None and cur[1].startswith('R') and cur[2] == 1     # between the two stores
+            in_reg = cur is not None and cur[1].startswith('R') and cur[2] >= 1     # between the first and the last store
             reg_new = tuple(int(x) for x in cur[1].split(':')[1:]) if in_reg else None
             in_ctor = cur is not None and cur[1] == 'C' and cur[2] >= 1
             in_dtor = cur is not None and cur[1] == 'D' and cur[2] >= 1
             dtor_handler_cleared = in_dtor and cur[2] >= 3
-            # "installed" (strict reading) for the current handler object: its own signal() call for g has been made
-            installed_strict = installed_obj[g] and st[g] == '1' or (installed_obj[g] and 'killed' in a)
+            # "installed" (strict reading) for the current handler object: its own signal() call for g has been made.
+            # A signal handled through a disposition left installed by an earlier object counts from this object's
+            # `stop_ = 0` on (before that store it belongs to nobody and is legitimately reset).
+            installed_strict = installed_obj[g] or (stop0_done and st[g] == '1')
             if 'killed' in a:
                 terminated = True
                 if ever_installed[g]:
@@ -237,7 +275,8 @@ def oracle(case, impl):
                 bad.append(('break-text-missing', 'no break text while the handler object is installed'))
             if obj_phase == 'none' and brk != '0':
                 bad.append(('break-text-after-teardown', 'break text written although no handler object exists'))
-            rec = {'g': g, 'pos': pos, 'ctor_window': in_ctor or (obj_phase == 'ctor'), 'stop1_mark': stop1_seen_since}
+            # the ctor window: handled by this object's handler installation but before its `stop_ = 0`
+            rec = {'g': g, 'pos': pos, 'ctor_window': obj_phase == 'ctor' and not stop0_done, 'stop1_mark': stop1_seen_since}
             if installed_strict:
                 counted.append(rec)
             if 'exit' in a:
@@ -319,6 +358,9 @@ def oracle(case, impl):
                 pending_lost = []
                 handled_since_ctor = 0
                 installed_obj = {'I': False, 'T': False}
+                stop0_done = False
+            if hd == 'sh.ctor.after_stop0':
+                stop0_done = True
             if hd == 'sh.ctor.after_signal_int':
                 installed_obj['I'] = True
             if hd == 'sh.ctor.after_signal_term':
@@ -337,7 +379,9 @@ def oracle(case, impl):
             if k == len(DTOR_NAMES) - 1:
                 obj_phase = 'none'
         elif m.startswith('R'):
-            if k == 1:
+            if hd == 'sh.set.after_handler_clear':
+                completed = None
+            if k == len(SET_NAMES) - 1:
                 completed = tuple(int(x) for x in m.split(':')[1:])
         elif m == 'W':
             q = (t['args'] or {}).get('q')
@@ -373,6 +417,7 @@ def build_harness(ck):
 
 
 def run_impl(exe, lines, shards):
+    exe_args = [exe, str(NSTEPS['R'])]
     os.makedirs(os.path.join(BUILD, 'c15'), exist_ok=True)
     chunks = [lines[i::shards] for i in range(shards)]
     procs = []
@@ -380,7 +425,7 @@ def run_impl(exe, lines, shards):
         fin = os.path.join(BUILD, 'c15', 'ops.%d.txt' % i)
         fout = os.path.join(BUILD, 'c15', 'impl.%d.out' % i)
         open(fin, 'w').write('\n'.join(ch) + ('\n' if ch else ''))
-        procs.append((subprocess.Popen([exe], stdin=open(fin), stdout=open(fout, 'w'), stderr=subprocess.PIPE), fout, ch))
+        procs.append((subprocess.Popen(exe_args, stdin=open(fin), stdout=open(fout, 'w'), stderr=subprocess.PIPE), fout, ch))
     outs = [None] * len(lines)
     for i, (p, fout, ch) in enumerate(procs):
         _, err = p.communicate()
@@ -394,8 +439,8 @@ def run_impl(exe, lines, shards):
     return outs
 
 
-def run_model(drv, lines):
-    p = subprocess.run([drv], input='\n'.join(lines) + '\n', capture_output=True, text=True)
+def run_model(drv, lines, layout='pinned'):
+    p = subprocess.run([drv, layout], input='\n'.join(lines) + '\n', capture_output=True, text=True)
     if p.returncode != 0:
         raise RuntimeError('model driver failed: %s' % p.stderr[-800:])
     res = p.stdout.split('\n')
@@ -416,7 +461,7 @@ def first_diff(a, b):
     return None
 
 
-N_THEOREMS = 18
+N_THEOREMS = 22
 
 
 def run(ck):
@@ -430,13 +475,32 @@ def run(ck):
             proof_ok = False
     exe = build_harness(ck)
     drv = ck.driver('drv_c15')
+    global COUNTEREXAMPLES
+    cf, rf, names = detect_layout(exe)
+    layout = LAYOUT_NAME.get((cf, rf))
+    if layout is None:
+        # neither the pinned order nor a proposed repair: keep the pinned model; the correspondence and the shape
+        # check of the oracle will report exactly where the order of the stores differs
+        ck.log('store order of the real code is not one the model knows: %s' % names)
+        cf, rf = bool(cf), bool(rf)
+        layout = LAYOUT_NAME[(cf, rf)]
+    set_layout(cf, rf)
+    COUNTEREXAMPLES = [c[:3] for c in ALL_COUNTEREXAMPLES
+                       if c[3] == 'any' or (c[3] == 'ctor' and not cf) or (c[3] == 'reg' and not rf)]
+    ck.log('store order observed in the real code: layout %s' % layout)
+    ck.cov['layout_observed'] = layout
+    ck.cov['claim_for_this_layout'] = {
+        'pinned': 'partial theorems + 3 open findings (ctor window, SetHandler window, across teardown)',
+        'ctorfix': 'C15_*_repaired (ctor) at full strength; SetHandler window and across-teardown findings remain',
+        'regfix': 'C15_pairing_repaired at full strength; ctor window and across-teardown findings remain',
+        'fixed': 'C15_*_repaired at full strength; only the across-teardown finding remains'}[layout]
     cases, enum_desc = gen_cases(ck)
     lines = [l for _, l in cases]
     ck.log('%d cases (%s)' % (len(lines), ', '.join('%s=%d' % (o, sum(1 for x, _ in cases if x == o))
                                                         for o in ['corpus', 'counterexample', 'enum', 'enum-extra', 'random', 'malformed'])))
     impl = run_impl(exe, lines, 8 if ck.tier == 'thorough' else 6)
     ck.log('implementation runs done')
-    model = run_model(drv, lines)
+    model = run_model(drv, lines, layout)
     ck.log('model runs done')
 
     hist = {'delivered_at': {}, 'outcome': {}, 'mode': {}, 'signals_per_case': {}, 'origin': {}}
@@ -548,8 +612,12 @@ def replay(ck, path):
         return 1
     exe = build_harness(ck)
     drv = ck.driver('drv_c15')
+    cf, rf, names = detect_layout(exe)
+    set_layout(bool(cf), bool(rf))
+    layout = LAYOUT_NAME[(bool(cf), bool(rf))]
     il = run_impl(exe, [case], 1)[0]
-    ml = run_model(drv, [case])[0]
+    ml = run_model(drv, [case], layout)[0]
+    print('layout    : ' + layout)
     print('case      : ' + case)
     print('real code : ' + il)
     print('model     : ' + ml)
